@@ -9,9 +9,9 @@ import (
 	"deps.dev/util/resolve/version"
 )
 
-var c12VerTemplates = []string{"d.d.d", "d.d.d-l", "d.d", "zzz", "d.d.d-d", "d.d.d.d", "vd.d.d"}
+var c12VerTemplates = []string{"d.d.d", "d.d.d-l", "d.d", "zzz", "d.d.d-d", "d.d.d.d", "vd.d.d", "d.d.d+l"}
 var c12ReqTemplates = map[System][]string{
-	NPM:   {"^d.d.d", ">=d.d.d", "d.d.d", "latest", "*", "<d.d.d", "~d.d", "zzz", "d.x"},
+	NPM:   {"^d.d.d", ">=d.d.d", "d.d.d", "latest", "*", "<d.d.d", "~d.d", "zzz", "d.x", ">=d.d.d-l <d.d.d", ">=d.d.d-l", "next"},
 	Maven: {"[d.d,d.d]", "d.d.d", "[d.d.d,)", "(,d.d.d)", "[d.d.d]"},
 	PyPI:  {">=d.d", "==d.d.d", "<d.d.d", "!=d.d.d", "~=d.d", ""},
 }
@@ -59,6 +59,13 @@ func VerifC12Match() {
 			vs[i].SetAttr(version.Tags, "next,beta")
 		}
 	}
+	if sys != NPM {
+		// only npm lists may hold version strings that do not parse
+		for i := 0; i < k; i++ {
+			_, perr := sys.Semver().Parse(vs[i].Version)
+			vAssume(perr == nil)
+		}
+	}
 	// distinct version strings (a package lists each version once)
 	for i := 0; i < k; i++ {
 		for j := i + 1; j < k; j++ {
@@ -82,6 +89,8 @@ func VerifC12Match() {
 		}
 		in2[j] = vs[i]
 	}
+	in2orig := make([]Version, k)
+	copy(in2orig, in2)
 	res2 := MatchRequirement(req, in2)
 	vCover(len(res) > 0, "some version matched")
 	vCover(len(res) < k, "some version rejected")
@@ -98,25 +107,9 @@ func VerifC12Match() {
 		for i := 0; i < k; i++ {
 			vAssert(c12Contains(res, vs[i]) == c.Match(vs[i].Version), "exactly the versions satisfying the requirement are returned")
 		}
-		// ascending order (npm: the version tagged latest may be moved last)
-		for i := 0; i+1 < len(res); i++ {
-			tags, _ := res[i+1].GetAttr(version.Tags)
-			tagsI, _ := res[i].GetAttr(version.Tags)
-			if sys == NPM && (strings.Contains(tags, "latest") || strings.Contains(tagsI, "latest")) {
-				continue
-			}
-			vAssert(semsys.Compare(res[i].Version, res[i+1].Version) <= 0, "results are in ascending order")
-		}
-		if sys == NPM {
-			// the latest-tagged version is last unless it is a prerelease while releases exist
-			for i := 0; i+1 < len(res); i++ {
-				tags, _ := res[i].GetAttr(version.Tags)
-				if strings.Contains(tags, "latest") {
-					v, err := semsys.Parse(res[i].Version)
-					vAssert(err == nil && v.IsPrerelease(), "a release tagged latest is moved last")
-				}
-			}
-		}
+		// ascending order; npm: the version tagged latest is moved last unless it is a prerelease while the
+		// list holds releases
+		c14Order(sys, res, vs)
 	} else if sys == NPM {
 		// not a range: the version whose string or tag equals the requirement
 		vAssert(len(res) <= 1, "a non-range npm requirement selects at most one version")
@@ -136,5 +129,25 @@ func VerifC12Match() {
 			tags, _ := res[0].GetAttr(version.Tags)
 			vAssert(res[0].Version == rs || strings.Contains(tags, rs), "the selected version carries the requested string or tag")
 		}
+	}
+	if vParam("sortcheck") == 0 {
+		return
+	}
+	// SortVersions: the same order for every order of the input, ascending, unparsable versions last
+	s1 := make([]Version, k)
+	copy(s1, vs)
+	s2 := make([]Version, k)
+	copy(s2, in2orig)
+	SortVersions(s1)
+	SortVersions(s2)
+	for i := 0; i < k; i++ {
+		vAssert(s1[i].VersionKey == s2[i].VersionKey, "SortVersions does not depend on the order of the list")
+	}
+	c14Order(sys, s1, s1)
+	s3 := make([]Version, k)
+	copy(s3, s1)
+	SortVersions(s3)
+	for i := 0; i < k; i++ {
+		vAssert(s1[i].VersionKey == s3[i].VersionKey, "SortVersions is idempotent")
 	}
 }
